@@ -190,6 +190,10 @@ func runC13(c *Cfg) {
 		c13Worker()
 		return
 	}
+	if os.Getenv("C13_ONLY_CC") != "" { // development aid: only the structural stream
+		c13RunCC(c, NewRng(c.Seed*2654435761+13))
+		return
+	}
 	r := NewRng(c.Seed)
 	var cases []*c13Case
 
@@ -301,6 +305,12 @@ func runC13(c *Cfg) {
 				c.Count("confirming-pairs")
 			}
 		}
+	}
+
+	// structural correspondence of the transcribed per-keyword builders (c13_cc.go); its own
+	// random stream, so that the other generators see the same sequence as before
+	if !c.Focus {
+		c13RunCC(c, NewRng(c.Seed*2654435761+13))
 	}
 
 	// witnesses of the `_false` theorems, evaluated on the implementation alone
